@@ -209,7 +209,32 @@ def run(ctx):
                         yield ("c02", {"_k": "rel:%d:%d:%d:%s" % (l["m"], k, which, order[0]["n"]), "prop": "C14", "lay": l, "P": (bytes((0, 1, 0, 0)) + body).hex()})
         del byname
 
+    def gen_len256():
+        """key lists whose payload length is an exact multiple of 256 (4 + 5a + 6b = 256, 512, 768 with one- and two-byte keys; 21 / 42
+        eight-byte keys): length bytes of 00 01, 00 02, 00 03"""
+        k1 = [e for e in db if e["t"][1:4] == "001" and e["t"][0] in "UEL"]
+        k2 = [e for e in db if e["t"][1:4] == "002" and e["t"][0] in "UEI"]
+        k8 = [e for e in db if e["t"][1:4] == "008"]
+        combos = []
+        for T in (256, 512, 768, 1024):
+            for b in range(0, 200):
+                rest = T - 4 - 6 * b
+                if rest >= 0 and rest % 5 == 0 and rest // 5 <= len(k1) and b <= len(k2):
+                    combos.append((rest // 5, b, 0))
+                    break
+            if (T - 4) % 12 == 0 and (T - 4) // 12 <= len(k8):
+                combos.append((0, 0, (T - 4) // 12))
+        for l in lays:
+            for ci, (a, b, c8) in enumerate(combos):
+                for which in (0, 1):
+                    items = rng.sample(k1, a) + rng.sample(k2, b) + rng.sample(k8, c8)
+                    rng.shuffle(items)
+                    body = b"".join(bytes(e["key"]) + extreme(e["t"], which) for e in items)
+                    P = bytes((0, 1, 0, 0)) + body
+                    yield ("c02", {"_k": "len256:%d:%d:%d" % (l["m"], ci, which), "prop": "C14", "lay": l, "P": P.hex()})
+
     run_batch(ctx, "T_Walk", "T_Walk.cfg", gen_everykey(), walk.OBSERVERS, sig2, c02.negfn, chunk=4000)
+    run_batch(ctx, "T_Walk", "T_Walk.cfg", gen_len256(), walk.OBSERVERS, sig2, c02.negfn, chunk=4000)
     run_batch(ctx, "T_Walk", "T_Walk.cfg", gen_related(), walk.OBSERVERS, sig2, c02.negfn, chunk=4000)
     pats = ("zero", "one", "ones", "rand", "rand", "rand", "rand", "count") * (2 if not ctx.thorough else 30)
     run_batch(ctx, "T_Walk", "T_Walk.cfg", c02.cases(ctx, lays, pats, prop="C14"), walk.OBSERVERS, sig2, c02.negfn, chunk=4000)
